@@ -176,3 +176,64 @@ class SymList:
                 v.symlist_elem = True
             return v
         self.item = tagged
+
+
+
+class HeapList(SymList):
+    """A symbolic-length list of real matrices whose elements can be written in place and re-bound:
+    slot m holds a matrix of rows(m) x cols(m) entries entry(m, i, j) (Python callables producing terms).
+
+    * item(m) is a *view* of slot m: it reads the slot's current content, so in-place writes through any view of
+      the slot are seen by all of them (one array object per slot);
+    * an in-place write through a view (a[key] = v, a[key] op= v) replaces the slot's content function;
+    * store(m, arr) re-binds the slot to another array; views taken before a re-binding would keep the old
+      array in Python, which is not modelled: reading such a stale view stops the path."""
+
+    def __init__(self, length, rows, cols, entry, kind="list"):
+        self.length = length
+        self.kind = kind
+        self.id = next(_ids)
+        self.rows, self.cols, self.entry = rows, cols, entry
+        self.gen = 0
+        self.item = self._view
+
+    def _view(self, m):
+        from . import terms as T
+        from .ctx import PathAbort
+        heap, gen = self, self.gen
+
+        def read(i, j):
+            if heap.gen != gen:
+                raise PathAbort("read through a reference to a list element taken before the element was re-bound (not modelled)")
+            return heap.entry(m, i, j)
+        a = Arr((self.rows(m), self.cols(m)), read, "real")
+        a.heap = (self, m)
+        return a
+
+    def begin_inplace(self, a):
+        """Freeze the view's reader on the current content (the generic item assignment builds the new content from it)."""
+        heap, m = a.heap
+        old = heap.entry
+        a.fn = lambda i, j, old=old, m=m: old(m, i, j)
+        return old
+
+    def end_inplace(self, a, old):
+        from . import terms as T
+        heap, m = a.heap
+        new = a.fn
+        heap.entry = lambda m2, i, j, m=m, new=new, old=old: T.Ite(T.eq(m2, m), new(i, j), old(m2, i, j))
+        gen = heap.gen
+
+        def read(i, j):
+            return heap.entry(m, i, j)
+        a.fn = read
+
+    def store(self, m, arr):
+        """Re-bind slot m to (a copy of the description of) arr."""
+        from . import terms as T
+        arr_fn, shp = arr.fn, arr.shape
+        old_e, old_r, old_c = self.entry, self.rows, self.cols
+        self.entry = lambda m2, i, j: T.Ite(T.eq(m2, m), arr_fn(i, j), old_e(m2, i, j))
+        self.rows = lambda m2: T.Ite(T.eq(m2, m), shp[0], old_r(m2))
+        self.cols = lambda m2: T.Ite(T.eq(m2, m), shp[1], old_c(m2))
+        self.gen += 1
